@@ -875,6 +875,7 @@ def programs(tier):
     reg("x2x2.T+y1x1(rechunk inserted by lowering over a transpose)", lambda w, E: _add_T_coarse(w, E), 4)
     reg("sliding_window_view(x3,W,0).sum(-1)", lambda w, E: p_sliding_sum(w, E, source(w, E, "x", (3,)), 0), 12)
     reg("sliding_window_view(x3,2,0)", lambda w, E: p_sliding_view(w, E, source(w, E, "x", (3,)), (2,), (0,)), 8)
+    reg("sliding_window_view(x3,2,0)[a:b]", lambda w, E: p_slice(w, p_sliding_view(w, E, source(w, E, "x", (3,)), (2,), (0,)), raw_index(E, (F,))), 12)
     reg("sliding_window_view(x2,(2,2),(0,0))", lambda w, E: p_sliding_view(w, E, source(w, E, "x", (2,)), (2, 2), (0, 0)), 8)
     reg("diag(x2)", lambda w, E: p_diag(w, E, source(w, E, "x", (2,))), 2)
     reg("diag(x2x2, same chunks on both axes)", lambda w, E: p_diag(w, E, _square(w, E, 2)), 3)
